@@ -6,6 +6,9 @@ import subprocess
 import sys
 import time
 
+import os
+REPO = os.environ.get("TRY_REPO", "/repo")
+VERIF = os.environ.get("TRY_VERIF", "/verif")
 args = sys.argv[1:]
 patch = args[0]
 tier = "quick"
@@ -20,11 +23,11 @@ while i < len(args):
         i += 1
 if not props:
     props = ["C%02d" % k for k in range(1, 21)]
-st = subprocess.run(["git", "-C", "/repo", "status", "--porcelain"], capture_output=True, text=True).stdout.strip()
+st = subprocess.run(["git", "-C", REPO, "status", "--porcelain"], capture_output=True, text=True).stdout.strip()
 if st:
-    print("refusing: /repo is not clean:\n" + st)
+    print("refusing: %s is not clean:\n" % REPO + st)
     sys.exit(2)
-r = subprocess.run(["git", "-C", "/repo", "apply", patch])
+r = subprocess.run(["git", "-C", REPO, "apply", patch])
 if r.returncode != 0:
     print("patch does not apply")
     sys.exit(2)
@@ -32,12 +35,15 @@ results = {}
 try:
     for p in props:
         t0 = time.time()
-        r = subprocess.run(["/verif/check", p, "--tier", tier], capture_output=True, text=True, cwd="/verif")
+        env = dict(os.environ)
+        if REPO != "/repo":
+            env["PV_REPO"] = REPO
+        r = subprocess.run([VERIF + "/check", p, "--tier", tier], capture_output=True, text=True, cwd=VERIF, env=env)
         sigs = [l.strip() for l in r.stdout.splitlines() if l.strip().startswith("signature:")]
         results[p] = {"exit": r.returncode, "signatures": sigs[:6], "wall_s": round(time.time() - t0, 1),
                       "harness": [l for l in r.stdout.splitlines() if "HARNESS" in l][:2]}
         print(p, "exit", r.returncode, "%.0fs" % (time.time() - t0), "; ".join(s[11:120] for s in sigs[:3]), flush=True)
 finally:
-    subprocess.run(["git", "-C", "/repo", "checkout", "--", "."])
+    subprocess.run(["git", "-C", REPO, "checkout", "--", "."])
 print("SUMMARY " + json.dumps({p: v["exit"] for p, v in results.items()}))
-json.dump(results, open("/tmp/try_seed_last.json", "w"), indent=1)
+json.dump(results, open(os.environ.get("TRY_OUT", "/tmp/try_seed_last.json"), "w"), indent=1)
